@@ -163,6 +163,16 @@ def flat(t):
 
 
 def handle_train(c):
+    try:
+        return _handle_train(c)
+    except Exception as e:   # noqa
+        return {'res': '__none__', 'ok': False, 'sig': 'd_dvalues-raises', 'kind': 'train/%s/%dD/%s' % (
+            c['method'], len(c['grids']), c['via']),
+            'msg': '%s, grid sizes %s, at %s: value / training-gradient request raised %s: %s' % (
+                c['method'], [len(g) for g in c['grids']], [str(fr(x)) for x in c['pt']], type(e).__name__, str(e)[:160])}
+
+
+def _handle_train(c):
     nd = len(c['grids'])
     grids = [np.array([float(fr(p)) for p in g]) for g in c['grids']]
     v = np.array(conv(c['v'], nd))
